@@ -20,7 +20,7 @@ type Config struct {
 	// the history is not part of the space (e.g. it exceeds a per-history budget) and is skipped.
 	Visit func(hist []uint8) (key uint64, allowed bool, violation string)
 	// Deadline: stop when reached (zero: none).
-	Deadline time.Time
+	Deadline  time.Time
 	MaxStates int
 }
 
